@@ -12,15 +12,16 @@
 EXTENDS Integers, Sequences, FiniteSets, TLC
 CONSTANTS Bases
 Widths  == {"1", "2", "4", "fat"}
-\* zero, one, all ones, only the top bit, top bit clear, original +1 / -1 / doubled, one bit
+\* zero, one, four and eight (the smallest record / header lengths), all ones, only the top bit, top bit clear, original +1 / -1 / doubled, one bit
 \* flipped (low / high), the number of the 512-byte sector / the block holding the field
 \* itself (a structure pointing at itself), the image size in bytes / in blocks (first
 \* position past the end); for FAT entries: free, reserved 1, itself, the head of its own
-\* chain, its predecessor, the first cluster past the end, end-of-chain, bad-cluster mark
-Classes == {"zero", "one", "ones", "msb", "max", "inc", "dec", "dbl", "flip0", "flip7",
-            "selfsec", "selfblk", "imgbytes", "imgblks",
-            "f-free", "f-one", "f-self", "f-head", "f-prev", "f-past", "f-eoc", "f-bad"}
-FatClasses == {c \in Classes : c \in {"f-free", "f-one", "f-self", "f-head", "f-prev", "f-past", "f-eoc", "f-bad"}}
+\* chain, its predecessor, the first cluster past the end, the number of entries of one FAT copy (also
+\* as a value of any 2/4-byte field of a FAT image: "fattablen"), end-of-chain, bad-cluster mark
+Classes == {"zero", "one", "four", "eight", "ones", "msb", "max", "inc", "dec", "dbl", "flip0", "flip7",
+            "selfsec", "selfblk", "imgbytes", "imgblks", "fattablen",
+            "f-free", "f-one", "f-self", "f-head", "f-prev", "f-past", "f-tablen", "f-eoc", "f-bad"}
+FatClasses == {c \in Classes : c \in {"f-free", "f-one", "f-self", "f-head", "f-prev", "f-past", "f-tablen", "f-eoc", "f-bad"}}
 Dims == [base : Bases, w : Widths, cls : Classes]
 IsFat(b) == b \in {"fat12", "fat16", "fat32"}
 Applicable(t) ==
@@ -28,6 +29,7 @@ Applicable(t) ==
     ELSE /\ t.cls \notin FatClasses
          /\ (t.cls \in {"selfsec", "selfblk", "imgblks"} => t.w \in {"2", "4"})
          /\ (t.cls = "imgbytes" => t.w = "4")
+         /\ (t.cls = "fattablen" => IsFat(t.base) /\ t.w \in {"2", "4"})
 
 \* ---- one recorded event = one tuple applied at all positions ----
 \* ev.n positions tried; ev.outcomes: the set (as a sequence) of distinct outcomes seen, each
@@ -36,7 +38,7 @@ Applicable(t) ==
 \*   over the cases, of max(growth of the memory obtained from the OS during the case,
 \*   cumulative allocation less 4 x image size per directory entry visited) - every open of an
 \*   entry legitimately re-reads directories and the allocation table
-MaxMs == 4000
+MaxMs == 4000        \* CPU milliseconds of the process executing the case
 AllocBound(mb) == 64 + 16 * mb
 Good == {"ok", "error"}
 P_C18(ev) == /\ ev.n > 0
